@@ -144,7 +144,8 @@ class FnReplayer:
 
     def bad(self, st, what, detail, prog):
         self.nbad += 1
-        self.rep.violation('fn:{}:{}'.format(st['f'], what), '{} {}: {}'.format(st['f'], what, detail), dict(step=st, program=prog, detail=detail))
+        where = 'dimension' if what == 'wrong-name' else 'function.evaluate' if what.startswith('evaluate-') else st['f']
+        self.rep.violation('fn:{}:{}'.format(where, what), '{} {}: {}'.format(st['f'], what, detail), dict(step=st, program=prog, detail=detail))
 
     def env(self, e):
         k = (e['nd'], tuple((o['q'], tuple(o['dim'])) for o in e['init']))
